@@ -11,7 +11,7 @@ from concurrent.futures import ThreadPoolExecutor
 
 VERIF = os.path.dirname(os.path.dirname(os.path.abspath(__file__)))
 REPO = os.environ.get("SLU_REPO", "/repo")
-CACHE = os.path.join(VERIF, ".cache")
+CACHE = os.path.join(os.environ.get("SLU_OUT", VERIF), ".cache")   # scratch runs (mutation self-tests) keep their own cache
 IRDUMP = os.path.join(VERIF, "sa", "irdump")
 
 CONFIGS = {
